@@ -209,6 +209,37 @@ func VerifC20_Shutdown() {
 	rt.Reach("shutdown-end")
 }
 
+// Shutdown right after the writer finished a batch (it is in its 10 ms
+// back-off): a line logged in that window is still written
+var c20Written chan struct{}
+
+func VerifC20_ShutdownRightAfterAWrite() {
+	rt.SchedYieldOnly(true)
+	c20Start()
+	SetLogLevel(TraceLevel)
+	c20Written = make(chan struct{}, 8)
+	inner := adapter
+	adapter = AdapterFunc(func(msg Message, duplicates uint64) {
+		inner.Write(msg, duplicates)
+		select {
+		case c20Written <- struct{}{}:
+		default:
+		}
+	})
+	k := rt.Len("k", 1, 2)
+	for i := 0; i < k; i++ {
+		Info("first" + string(rune('a'+i)))
+		<-c20Written // the writer has handed the line to the adapter
+	}
+	last := rt.Len("last", 1, 2)
+	for i := 0; i < last; i++ {
+		Info("last" + string(rune('a'+i)))
+	}
+	Shutdown()
+	rt.Assert(c20Total() == uint64(k+last), "shutdownafterwrite/everything-logged-before-was-written")
+	rt.Reach("shutdownafterwrite-end")
+}
+
 // a second Shutdown call (e.g. a module and main both stopping the logger)
 // returns only after the flush as well
 func VerifC20_ShutdownTwice() {
